@@ -95,67 +95,86 @@ def decodeLoc (a : Json) (k : String) : Except String Loc := do
 def encodeConds (l : List Cond) : Json := Json.arr (l.map encodeCond).toArray
 def encodeLoc (l : Loc) : Json := Json.arr (l.map fun e => Json.arr #[J.hex e.1, encodeCond e.2]).toArray
 
-def runOps (sh : Str → Nat) : Store → World → List Op → List Json → List Json
+/-- `{"op":"flush"|"stop", "ord":…, "intr":{"at":k,"op":{…}}}` is a flush with another goroutine's call in its window -/
+def decodeOpI (j : Json) : Except String OpI := do
+  match J.optObj j "intr" with
+  | none => pure (.plain (← decodeOp j))
+  | some i =>
+    let at_ ← J.getNat i "at"
+    let intr ← decodeOp (← J.getObj i "op")
+    match ← J.getStr j "op" with
+    | "flush" => pure (.flushI (← decodeOrd j) at_ intr)
+    | "stop" => pure (.stopI (← decodeOrd j) at_ intr)
+    | o => throw s!"{o} cannot carry an intruder"
+
+def encodePts (l : List Pt) : Json :=
+  Json.arr (l.map fun s => J.obj [("api", encodeConds s.api.objs),
+    ("ext", match s.voided with | some n => J.hex n | none => Json.null)]).toArray
+
+def decodePts (o : Json) (k : String) : Except String (List Pt) := do
+  match o.getObjVal? k with
+  | .error _ => pure []
+  | .ok v =>
+    (← v.getArr?).toList.mapM fun p => do
+      let ext ← match J.optObj p "ext" with
+        | some e => do pure (some (← J.asHex e))
+        | none => pure none
+      pure ({ api := { objs := ← decodeConds p "api", nextRv := 0 }, voided := ext } : Pt)
+
+def runOps (sh : Str → Nat) : Store → World → List OpI → List Json → List Json
   | _, _, [], acc => acc.reverse
   | st, w, op :: ops, acc =>
-    match step sh st op w with
-    | (st', w', res) =>
-      runOps sh st' w' ops (J.obj [("res", Json.str (resName res)), ("loc", encodeLoc st'.loc),
+    match observe sh st op w with
+    | (o, st', w') =>
+      runOps sh st' w' ops (J.obj [("res", Json.str (resName o.res)), ("loc", encodeLoc st'.loc),
         ("api", encodeConds w'.api.objs), ("nextRv", J.nat w'.api.nextRv), ("calls", J.nat w'.trace.length),
-        ("stopped", J.bool st'.stopped)] :: acc)
+        ("stopped", J.bool st'.stopped), ("ran", J.bool o.ran), ("ires", Json.str (resName o.ires)),
+        ("seg1", encodePts o.seg1), ("seg2", encodePts o.seg2), ("seg3", encodePts o.seg3)] :: acc)
 
 def doRun (a : Json) : Except String Json := do
   let sh ← decodeShards a
   let st := newStore (← J.getNat a "shard") (← J.getBool a "wt") (← J.getNat a "steps")
   let api : Api := { objs := ← decodeConds a "api", nextRv := ← J.getNat a "nextRv" }
-  let ops ← (← J.getArr a "ops").toList.mapM decodeOp
+  let ops ← (← J.getArr a "ops").toList.mapM decodeOpI
   let script ← (← J.getArr a "script").toList.mapM decodeFault
   let w : World := { api := api, script := script, trace := [] }
-  -- the final world is recomputed for the trace (cheap: cases are small)
-  let final := ops.foldl (fun (p : Store × World) op => let r := step sh p.1 op p.2; (r.1, r.2.1)) (st, w)
-  pure <| J.obj [("steps", Json.arr (runOps sh st w ops []).toArray),
-                 ("trace", Json.arr (final.2.trace.reverse.map fun s => J.obj [("api", encodeConds s.api.objs),
-                    ("ext", match s.voided with | some n => J.hex n | none => Json.null)]).toArray)]
+  -- the model judged by its own judge (must be true: `KG.Props.C19.c19_durable`), at both strengths
+  let weak := (checkAll sh false st Ghost.empty w ops).all fun p => judge p.1 p.2
+  let full := (checkAll sh true st Ghost.empty w ops).all fun p => judge p.1 p.2
+  pure <| J.obj [("steps", Json.arr (runOps sh st w ops []).toArray), ("judge", J.bool weak), ("judgeFull", J.bool full)]
 
-/-- one observation: the operation, the cache before it, whether the store was stopped, the API after each call
-    it made, the API when it returned, its answer -/
-def judgeObs (sh : Str → Nat) : Cfg → Ghost → Nat → List Json → Except String Json
+/-- The judge on observations of the real store. One observation: the operation, the cache before it, whether the
+    store was stopped, the crash points (before / inside / after the window), the answers, the API at the return.
+    `full` selects the strength (see `checkObs`). -/
+def judgeObs (sh : Str → Nat) (full : Bool) : Cfg → Ghost → Nat → List Json → Except String Json
   | _, _, _, [] => pure (J.obj [("ok", J.bool true)])
   | cfg, g, i, o :: rest => do
-    let op ← decodeOp (← J.getObj o "op")
+    let op ← decodeOpI (← J.getObj o "op")
     let st : Store := { cfg := cfg, loc := ← decodeLoc o "loc", stopped := ← J.getBool o "stopped" }
-    let res ← decodeRes (← J.getStr o "res")
-    let pts ← (← J.getArr o "points").toList.mapM fun p => do
-      let ext ← match J.optObj p "ext" with
-        | some e => do pure (some (← J.asHex e))
-        | none => pure none
-      pure (({ objs := ← decodeConds p "api", nextRv := 0 } : Api), ext)
-    let fin : Api := { objs := ← decodeConds o "api", nextRv := 0 }
-    let g1 := ghostPre sh st op g
-    let bad (pt : Nat) (gg : Ghost) (api : Api) : Json :=
-      match firstBroken gg api with
-      | some (n, kind) => J.obj [("ok", J.bool false), ("at", J.nat i), ("point", J.nat pt), ("name", J.hex n), ("kind", J.nat kind)]
-      | none => J.obj [("ok", J.bool false), ("at", J.nat i), ("point", J.nat pt), ("name", J.hex []), ("kind", J.nat 9)]
-    -- the claims in force at every crash point of the operation: an object somebody else removed is no longer claimed
-    let gs := pts.foldl (fun (acc : List Ghost × Ghost) p =>
-      let g' := match p.2 with | some n => acc.2.unhold n | none => acc.2
-      (g' :: acc.1, g')) ([], g1)
-    let g1' := gs.2
-    match ((gs.1.reverse.zip (pts.map (·.1))).zipIdx).find? (fun p => ! judge p.1.1 p.1.2) with
-    | some p => pure (bad p.2 p.1.1 p.1.2)
+    let ran := (J.getBool o "ran").toOption.getD false
+    let ires ← match J.getStr o "ires" with
+      | .ok s => decodeRes s
+      | .error _ => pure Res.ok
+    let obs : Obs := { st := st, op := op, seg1 := ← decodePts o "points", ran := ran, seg2 := ← decodePts o "ipoints",
+                       ires := ires, seg3 := ← decodePts o "points3", res := ← decodeRes (← J.getStr o "res"),
+                       fin := { objs := ← decodeConds o "api", nextRv := 0 } }
+    let r := checkObs sh full g obs
+    match (r.1.zipIdx).find? (fun p => ! judge p.1.1 p.1.2) with
+    | some p =>
+      let (n, kind) := (firstBroken p.1.1 p.1.2).getD ([], 9)
+      pure (J.obj [("ok", J.bool false), ("at", J.nat i), ("point", J.nat p.2), ("name", J.hex n), ("kind", J.nat kind),
+                   ("api", encodeConds p.1.2.objs)])
     | none =>
-      let g2 := ghostPost sh st op res g1'
-      if ! judge g2 fin then pure (bad pts.length g2 fin)
-      else
-        let cfg' := match op with
-          | .restart s wt => { cfg with shard := s, writeThrough := wt }
-          | _ => cfg
-        judgeObs sh cfg' g2 (i + 1) rest
+      let cfg' := match op with
+        | .plain (.restart s wt) => { cfg with shard := s, writeThrough := wt }
+        | _ => cfg
+      judgeObs sh full cfg' r.2 (i + 1) rest
 
 def doJudge (a : Json) : Except String Json := do
   let sh ← decodeShards a
   let cfg : Cfg := { shard := ← J.getNat a "shard", writeThrough := ← J.getBool a "wt", steps := ← J.getNat a "steps" }
-  judgeObs sh cfg Ghost.empty 0 (← J.getArr a "obs").toList
+  let full := (J.getBool a "full").toOption.getD false
+  judgeObs sh full cfg Ghost.empty 0 (← J.getArr a "obs").toList
 
 def doLoad (a : Json) : Except String Json := do
   let sh ← decodeShards a
